@@ -18,11 +18,14 @@ MANIFEST = {
             "visibility, key lock held to transaction end, a failed COMMIT applies nothing) and this driver's case printer. "
             "The seata-fence-mysql proxy-driver mode (FenceConn/FenceTx) is modelled too; the property fails there by design "
             "(two known findings, C06_drivermode_refuted / _partial).",
-    "technique": "Coq proof (induction over histories + reflection over the finite thread machine) + differential correspondence (vm_compute) + direct oracle on the real code",
+    "technique": "Coq proof (induction over histories + reflection over the finite thread machine, over decision tables REGENERATED from the fence handler on every run) + differential correspondence (vm_compute) + direct oracle on the real code",
 }
+TABLES = [("fence", "FenceRules.v")]
 PROP_FILE = "Props/P_C06.v"
 REQUIRES = "From SeataV Require Import Props.P_C06."
 TRUSTED = vlib.TRUSTED_COMMON + [
+    "tools/xlate fence (go/ast + statement patterns over the fence handler, updateFenceStatus, doFence, WithFence; "
+    "unmatched syntax -> DUnknown / WfUnknown, rejected by C06_tables_recognised)",
     "harness/fencerun: stateful database/sql/driver stand-in for MySQL (statement shapes of tcc_fence_store_sql.go, unique key, "
     "transaction overlay, per-key lock, fault injection, sequential scheduler for the race) and the direct oracle",
     "lib/checks/c06.py case printer",
@@ -76,10 +79,13 @@ def params(chk):
 
 
 def run(chk, replay_case=None):
+    # (B1) the handler's decision tables, the CAS old status, the phase dispatch and WithFence's shape are
+    # regenerated from the working tree; the theorems are re-checked on them
+    vlib.run_xlate("fence", "FenceRules.v")
     pr = vlib.proof_step(chk, PROP_FILE, REQUIRES)
     ok_cases, out_cases = vlib.coq_make(["Fence/FenceCases.vo"])
     if not ok_cases:
-        raise vlib.Broken("Fence/FenceCases.v does not compile:\n" + out_cases[-1500:])
+        raise vlib.TieBroken("the model does not type-check on the regenerated fence tables:\n" + out_cases[-1500:])
     if replay_case is not None:
         rp = chk.tmp("replay_in.json")
         json.dump(replay_case, open(rp, "w"))
@@ -145,7 +151,10 @@ def run(chk, replay_case=None):
                        "model_disagreements": [CODES.get(e, str(e)) for e in mism[i]],
                        "mismatching_cases": len(corr_fail)}, False)
     if not pr["ok"] and not chk.violations:
-        chk.violation("proof obligation of C06 no longer checks", {"theorem": "Props/P_C06.v", "coq_output": pr["out"][-1500:]}, False)
+        tables = open(os.path.join(vlib.COQ, "Gen", "FenceRules.v")).read()
+        chk.violation("proof obligation of C06 no longer checks on the tables regenerated from the fence handler",
+                      {"theorem": "Props/P_C06.v (C06_tables_recognised / single_ok_all / race_table_checked / drv_ok_all)",
+                       "regenerated_tables": tables[-2500:], "coq_output": pr["out"][-1500:]}, False)
 
     def nontrivial(c):
         # reaches the mechanism: some delivery is decided by an existing fence record (duplicate, late, refused),
